@@ -46,7 +46,8 @@ func (x *Exec) registerGhosts(fn *ssa.Function) {
 	x.ghostTy["bank.supply"] = ghostInfo{Arr: true, Sort: bankSupplySort}
 	x.ghostTy["bank.meta"] = ghostInfo{Arr: true, Sort: "(Array Bytes Bool)"}
 	x.ghostTy["auth.acc"] = ghostInfo{Arr: true, Sort: "(Array Bytes Bool)"}
-	x.ghostTy["perm.admin"] = ghostInfo{Arr: true, Opt: true, Sort: permAdminSort}
+	x.ghostTy["perm.admin"] = ghostInfo{Arr: true, Opt: true, Sort: permAdminSort, ValTy: tBytes}
+	x.ghostTy["chan.nextSend"] = ghostInfo{Arr: true, Opt: true, Sort: chanSeqSort, ValTy: tUint64}
 	module := "ophost"
 	pkgPath := ""
 	if fn.Pkg != nil {
